@@ -108,6 +108,13 @@ func c14Opts(accept string) []SqlOption {
 		return []SqlOption{f2}
 	case "both":
 		return []SqlOption{f1, f2}
+	// a nil function as the option's argument: alone, after and before a real one
+	case "nil":
+		return []SqlOption{WithAcceptable(nil)}
+	case "usernil":
+		return []SqlOption{f1, WithAcceptable(nil)}
+	case "niluser":
+		return []SqlOption{WithAcceptable(nil), f1}
 	}
 	panic("c14: bad accept " + accept)
 }
@@ -175,6 +182,37 @@ func c14Sess(ctx context.Context, s Session, end func(bool)) verifc14.Sess {
 			}
 			return err
 		},
+		QueryPartial: func(q string) error {
+			var out []string
+			var err error
+			if ctx != nil {
+				err = s.QueryRowsPartialCtx(ctx, &out, q)
+			} else {
+				err = s.QueryRowsPartial(&out, q)
+			}
+			if err == nil && (len(out) != 1 || out[0] != "c14") {
+				return fmt.Errorf("c14: unexpected rows %v", out)
+			}
+			return err
+		},
+		QueryRowPartial: func(q string) error {
+			var out string
+			var err error
+			if ctx != nil {
+				err = s.QueryRowPartialCtx(ctx, &out, q)
+			} else {
+				err = s.QueryRowPartial(&out, q)
+			}
+			if err == nil && out != "c14" {
+				return fmt.Errorf("c14: unexpected row %v", out)
+			}
+			return err
+		},
+		RawDB: func() (bool, error) {
+			raw, err := NewSqlConnFromSession(s).RawDB()
+			return raw != nil, err
+		},
+		CV: c14CV(ctx),
 		RawExec: func(q string) error {
 			rs := NewSessionFromTx(s.(txSession).Tx)
 			if ctx != nil {
@@ -216,6 +254,17 @@ func c14Sess(ctx context.Context, s Session, end func(bool)) verifc14.Sess {
 	}
 }
 
+// c14CV: does the context the body was given carry the value put into the context passed to TransactCtx
+func c14CV(ctx context.Context) string {
+	if ctx == nil {
+		return "-"
+	}
+	if v, _ := ctx.Value(verifc14.CtxKey{}).(string); v == verifc14.CtxVal {
+		return "1"
+	}
+	return "0"
+}
+
 func c14Gen(r *verifh.Rng) []verifh.Section {
 	var secs []verifh.Section
 	maxLen := verifh.Scale(6, 12)
@@ -233,6 +282,7 @@ func c14Gen(r *verifh.Rng) []verifh.Section {
 	for _, c := range []struct{ via, api, a0, a1 string }{
 		{"fromdb", "ctx", "none", "both"}, {"fromdb", "plain", "user", "user2"}, {"fromdb", "ctx", "both", "none"},
 		{"named", "plain", "user2", "user"}, {"named", "ctx", "both", "both"}, {"onconn", "ctx", "none", "none"},
+		{"fromdb", "plain", "usernil", "niluser"}, {"fromdb", "ctx", "nil", "usernil"},
 	} {
 		ops := verifc14.ExhaustiveAcc(c.api, verifc14.AllClasses, accLen, 0)
 		rec := 1
@@ -267,8 +317,8 @@ func c14Gen(r *verifh.Rng) []verifh.Section {
 		default:
 			via = "namedbad"
 		}
-		accept := r.PickS("none", "user", "user2", "both")
-		accept1 := r.PickS("none", "user", "user2", "both")
+		accept := r.PickS("none", "user", "user2", "both", "none", "user", "user2", "both", "nil", "usernil", "niluser")
+		accept1 := r.PickS("none", "user", "user2", "both", "none", "user", "user2", "both", "nil", "usernil", "niluser")
 		n := r.Range(4, 14)
 		if rec == 0 && via != "onconn" {
 			n = r.Range(3, 8) // a real breaker keeps its history over the section
@@ -353,6 +403,9 @@ func TestVerifC14(t *testing.T) {
 				end(false)
 			case "ctxdead":
 				end(true)
+			}
+			if ctx != nil {
+				ctx = context.WithValue(ctx, verifc14.CtxKey{}, verifc14.CtxVal)
 			}
 			fnCtx := func(c context.Context, s Session) error { return body(c14Sess(c, s, end)) }
 			if via == "onconn" {
